@@ -21,6 +21,15 @@ leaf = broken obligation, so run_check starts the failing-input search).
                   `values[np.flatnonzero(np.isin(time, bins[t]))[0]]` -> the index 0
   selMatch        Dataset.split_obs: `selection = np.where(inverse == i_v)[0]` -> the mask test (1 / 0)
   avgMatch        computations.average_dataset_by: `dataset.measurements[inverse == i_v, :]`  (1 / 0)
+  tacFlat, tacChanOf, tacTimeOf   (round 5)
+                  TemporalDataset.time_as_channels: the values are flattened by
+                  `self.measurements.reshape(n_obs, -1)` -- numpy's default C *index* order, whatever the
+                  memory layout of the array: column of (channel j, time t) = `j * n_tps + t` -- while the
+                  labels are built by `np.repeat(v, n_tps)` (column q carries channel `q // n_tps`) and
+                  `np.tile(v, n_chans)` (time `q % n_tps`).  Any `order=` other than 'C' (in particular
+                  'A' / 'K', whose index order depends on the memory layout, and 'F', which interleaves
+                  observations), a reshape of anything but `self.measurements` itself, another target
+                  shape, or other repeat / tile arguments are underivable.
 """
 import ast
 import os
@@ -214,6 +223,68 @@ def _derive():
         return _mask_test(node.slice.elts[0], 'inverse', 'i_v')
     emit_test('avg_match', ['inverse', 'i_v'], avg_match)
 
+    # ---- round 5: time_as_channels -- index order of the flattening vs. the order of the labels
+    def tac_parts():
+        fn = _func('data/dataset.py', 'time_as_channels', 'TemporalDataset')
+        sh = [n for n in ast.walk(fn) if isinstance(n, ast.Assign)
+              and ast.unparse(n.value) == 'self.measurements.shape']
+        node = _one(sh, 'unpacking of self.measurements.shape')
+        if ast.unparse(node.targets[0]) != '(n_obs, n_chans, n_tps)':
+            raise Underivable(f'shape is unpacked as `{ast.unparse(node.targets[0])}`')
+        ret = _one([n for n in ast.walk(fn) if isinstance(n, ast.Return)], 'return statement')
+        if not (isinstance(ret.value, ast.Call) and ast.unparse(ret.value.func) == 'Dataset' and not ret.value.args):
+            raise Underivable(f'time_as_channels returns `{ast.unparse(ret.value)[:60]}`')
+        return fn, {k.arg: k.value for k in ret.value.keywords}
+
+    def tac_flat():
+        fn, kw = tac_parts()
+        m = kw.get('measurements')
+        if m is None:
+            raise Underivable('no measurements= argument')
+        if isinstance(m, ast.Call) and isinstance(m.func, ast.Attribute) and m.func.attr == 'copy':
+            if m.args or m.keywords:
+                raise Underivable(f'`{ast.unparse(m)}`: copy with arguments')
+            m = m.func.value
+        if not (isinstance(m, ast.Call) and isinstance(m.func, ast.Attribute) and m.func.attr == 'reshape'):
+            raise Underivable(f'measurements are `{ast.unparse(m)}`, not a reshape')
+        if ast.unparse(m.func.value) != 'self.measurements':
+            raise Underivable(f'the reshaped array is `{ast.unparse(m.func.value)}`, not self.measurements')
+        shape = ast.unparse(ast.Tuple(elts=m.args, ctx=ast.Load())) if len(m.args) != 1 else ast.unparse(m.args[0])
+        if shape.replace(' ', '') not in ('(n_obs,-1)', '(n_obs,n_chans*n_tps)'):
+            raise Underivable(f'target shape `{shape}`')
+        for k in m.keywords:
+            if not (k.arg == 'order' and isinstance(k.value, ast.Constant) and k.value.value == 'C'):
+                raise Underivable(f'reshape keyword `{ast.unparse(k)}`: the index order is not C')
+        return 'j * n_tps + t'          # C index order over the trailing axes (n_chans, n_tps)
+
+    def tac_labels(which):
+        fn, kw = tac_parts()
+        if ast.unparse(kw.get('channel_descriptors', ast.Constant(value=None))) != 'chn_des':
+            raise Underivable('channel_descriptors is not chn_des')
+        node = _one(_assigns(fn, 'chn_des'), 'assignment to chn_des').value
+        if ast.unparse(node) != '{k: np.repeat(v, n_tps) for k, v in old_chn_des.items()}':
+            raise Underivable(f'chn_des is `{ast.unparse(node)}`')
+        if ast.unparse(_one(_assigns(fn, 'old_chn_des'), 'assignment to old_chn_des').value) != 'self.channel_descriptors':
+            raise Underivable('old_chn_des is not self.channel_descriptors')
+        loops = [n for n in fn.body if isinstance(n, ast.For)]
+        loop = _one(loops, 'loop over the time descriptors')
+        if ast.unparse(loop.iter) != 'self.time_descriptors.items()' or ast.unparse(loop.target) != '(k, v)' \
+                or len(loop.body) != 1 or ast.unparse(loop.body[0]) != 'chn_des[k] = np.tile(v, n_chans)':
+            raise Underivable(f'time labels are built by `{ast.unparse(loop)[:80]}`')
+        return 'q // n_tps' if which == 'chan' else 'q % n_tps'
+
+    def emit_expr(name, params, expr_fn):
+        try:
+            body = expr_fn()
+        except Exception as exc:  # noqa: BLE001  (fail closed)
+            body = '__underivable__(' + repr(str(exc)) + ')'
+        out.append(f'def {name}({", ".join(params)}):')
+        out.append(f'    return {body}')
+        out.append('')
+    emit_expr('tac_flat', ['j', 't', 'n_tps'], tac_flat)
+    emit_expr('tac_chan_of', ['q', 'n_tps'], lambda: tac_labels('chan'))
+    emit_expr('tac_time_of', ['q', 'n_tps'], lambda: tac_labels('time'))
+
     text = '\n'.join(out)
     if not (os.path.exists(DERIVED) and open(DERIVED).read() == text):
         with open(DERIVED + '.tmp', 'w') as f:
@@ -234,4 +305,7 @@ LEAVES = [
     dict(_T, name='binFirst', func='bin_first', params={}),
     dict(_T, name='selMatch', func='sel_match', params={'inverse': 'Nat', 'i_v': 'Nat'}),
     dict(_T, name='avgMatch', func='avg_match', params={'inverse': 'Nat', 'i_v': 'Nat'}),
+    dict(_T, name='tacFlat', func='tac_flat', params={'j': 'Nat', 't': 'Nat', 'n_tps': 'Nat'}),
+    dict(_T, name='tacChanOf', func='tac_chan_of', params={'q': 'Nat', 'n_tps': 'Nat'}),
+    dict(_T, name='tacTimeOf', func='tac_time_of', params={'q': 'Nat', 'n_tps': 'Nat'}),
 ]
